@@ -240,6 +240,13 @@ pub fn gen_requests(n: usize) -> Vec<Req> {
         match simkernel::choose(12) {
             0 => bfmt = pick(&[0u16, 9, 0xfffe]),          // unacceptable / unknown format
             1 => body = b"{not json".to_vec(),              // malformed
+            5 if bfmt == 2 => {
+                // well-formed JSON text around bytes that are not UTF-8 (sometimes framed as UTF-8)
+                body = b"{\"s\":\"\xff\xfe\"}".to_vec();
+                if simkernel::choose(2) == 0 {
+                    bfmt = 3;
+                }
+            }
             2 => body = Vec::new(),                         // empty
             3 if bfmt == 2 && matches!(route, "/json/echo" | "/bjson/echo" | "/ctx/json" | "/bctx/json" | "/json/fail" | "/reg/fn") => {
                 bfmt = 1;
